@@ -53,6 +53,9 @@ type C06Case struct {
 	// Sweeper: the tomb sweeper is configured (retention in days); a snapshot still carries every
 	// marker that exists in the LMDB, however old
 	Sweeper float32 `json:"sweeper_retention_days,omitempty"`
+	// CancelInDump: a third upload whose context is cancelled while its dump transaction is open
+	CancelInDump    bool `json:"cancel_in_dump,omitempty"`
+	StoreIgnoresCtx bool `json:"store_ignores_ctx,omitempty"`
 	// Second round: the application deletes / changes some entries, then a second SendOnce
 	DelIdx []int `json:"del_idx,omitempty"`
 }
@@ -178,7 +181,16 @@ func checkC06(c C06Case, o *vcore.Obs) error {
 		conf.Sweeper = config.Sweeper{Enabled: true, RetentionDays: c.Sweeper, Interval: time.Hour, FirstInterval: time.Hour, LockDuration: time.Millisecond, ReleaseDuration: time.Millisecond}
 	}
 	lc := config.LMDB{SchemaTracksChanges: c.Native, DupSortHack: !c.Native}
-	s, err := syncer.New(DBName, env.Env, b.Handle("x"), conf, lc, syncer.Options{})
+	hk := hooks.New()
+	var cancelInDump context.CancelFunc // when set: called while the dump transaction is open
+	hk.BeforeRead = func(hooks.BeforeReadParams) error {
+		if cancelInDump != nil {
+			cancelInDump()
+		}
+		return nil
+	}
+	hdl := b.Handle("x")
+	s, err := syncer.New(DBName, env.Env, hdl, conf, lc, syncer.Options{Hooks: hk})
 	if err != nil {
 		return err
 	}
@@ -282,6 +294,29 @@ func checkC06(c C06Case, o *vcore.Obs) error {
 	}
 	if err := send(); err != nil {
 		return fmt.Errorf("second upload: %w", err)
+	}
+	// third upload, shut down while the dump is under way: whatever reaches the bucket is a complete image
+	// (an upload that reports success in particular), a partial one must never be stored
+	if c.CancelInDump {
+		cctx, cancel := context.WithCancel(context.Background())
+		cancelInDump = cancel
+		hdl.IgnoreContext(c.StoreIgnoresCtx) // like the fs / memory backends: the Store call itself would still go through
+		before := len(b.Names())
+		t0 := time.Now()
+		_, serr := s.SendOnce(cctx, env.Env)
+		t1 := time.Now()
+		cancelInDump = nil
+		cancel()
+		names := b.Names()
+		if len(names) > before {
+			if _, err := checkSnapshotAgainstLMDB(b, names[len(names)-1], env.Env, c.Native, inst, t0, t1); err != nil {
+				return fmt.Errorf("upload cancelled while the dump transaction was open (SendOnce returned %v) stored a snapshot: %w", serr, err)
+			}
+		} else if serr == nil {
+			return fmt.Errorf("upload cancelled while the dump transaction was open: SendOnce reported success but stored nothing")
+		}
+		o.ClassIf(serr != nil, "cancelled-upload-refused")
+		o.ClassIf(serr == nil, "cancelled-upload-completed")
 	}
 	// classes
 	feat := false
@@ -387,6 +422,8 @@ func genC06(t *rapid.T) C06Case {
 	}
 	// dupsort contents must be mappable by the hack; keep them simple (C20 covers refusal)
 	c.Private = rapid.IntRange(0, 2).Draw(t, "private") == 0
+	c.CancelInDump = rapid.IntRange(0, 2).Draw(t, "cancel_in_dump") == 0
+	c.StoreIgnoresCtx = rapid.Bool().Draw(t, "store_ignores_ctx")
 	if rapid.IntRange(0, 2).Draw(t, "sweeper") == 0 {
 		c.Sweeper = rapid.SampledFrom([]float32{0.001, 1, 370}).Draw(t, "retention")
 	}
@@ -396,7 +433,7 @@ func genC06(t *rapid.T) C06Case {
 
 func TestC06Image(t *testing.T) {
 	vcore.Run(t, vcore.Config{Property: "C06",
-		Rule: "rapid LMDB contents: 0-6 application DBIs (plain, integer key 4/8, dupsort with the hack in shadow mode), 0-200 entries, keys <=511 B, values empty..3 MiB, native headers with 0-3 extension blocks / unknown flag bits / ts incl. 0 / markers, private _sync* DBIs, arbitrary instance names, tomb sweeper configured or not (markers older than the retention are still part of the image); SendOnce twice (deletions in between); decoded with the reference codec and compared with an independent dump; wire walk finds only schema fields; name/meta/time/transaction id checked; " +
+		Rule: "rapid LMDB contents: 0-6 application DBIs (plain, integer key 4/8, dupsort with the hack in shadow mode), 0-200 entries, keys <=511 B, values empty..3 MiB, native headers with 0-3 extension blocks / unknown flag bits / ts incl. 0 / markers, private _sync* DBIs, arbitrary instance names, tomb sweeper configured or not (markers older than the retention are still part of the image); SendOnce twice (deletions in between), optionally a third time with its context cancelled while the dump transaction is open (nothing partial may be stored); decoded with the reference codec and compared with an independent dump; wire walk finds only schema fields; name/meta/time/transaction id checked; " +
 			"non-trivial = >=2 DBIs and one of {marker, empty value, extension block, >=16 KiB value, second round with deletions}"},
 		genC06, checkC06)
 }
